@@ -199,6 +199,36 @@ def body(chk):
                     if d != "bare":
                         coq_case(op, d, view(A), view(B), out, site, replay)
 
+    # ---- B2: several FAMILIES with the same parameter values, one after another: each embedding, and interval + distribution, is decided
+    # against that family's own quantile function (scipy), not against the library's conversion
+    import scipy.stats as sps
+    from pyuncertainnumber.pba.params import Params as _P
+    pv = np.asarray(_P.p_values, float)
+    fams = ["logistic", "gumbel_r", "laplace", "rayleigh", "norm", "logistic"]
+    for params in ((1.0, 2.0), (0.5, 0.25)) if chk.tier == "quick" else ((1.0, 2.0), (0.5, 0.25), (-3.0, 1.5), (10.0, 0.5)):
+        iv = (3.0, 5.0)
+        for fam in fams:
+            qref = np.asarray(getattr(sps, fam).ppf(pv, *params), float)
+            chk.count(f"families-same-parameters-{fam}", key=("fam", fam, params))
+            replay = {"kind": "oracle", "family": fam, "params": list(params), "families_before_with_these_parameters": fams[:fams.index(fam)], "interval": list(iv)}
+            try:
+                Dd = pba.Distribution(fam, params)
+                emb = view(Dd)
+            except Exception as e:
+                chk.report(f"hier:family:{fam}", f"Distribution('{fam}', {params}) cannot be embedded: {type(e).__name__}: {str(e)[:60]}", replay)
+                continue
+            if not (all(close(x, r, 256) for x, r in zip(emb[0], qref)) and all(close(x, r, 256) for x, r in zip(emb[1], qref))):
+                k = next(i for i in range(len(qref)) if not (close(emb[0][i], qref[i], 256) and close(emb[1][i], qref[i], 256)))
+                chk.report(f"hier:family:{fam}", f"Distribution('{fam}', {params}) embedded as a p-box is not that family's quantile function (step {k}: [{emb[0][k]}, {emb[1][k]}] vs {qref[k]})", replay)
+                continue
+            for order in ("ID", "DI"):
+                A, B = (pba.I(*iv), Dd) if order == "ID" else (Dd, pba.I(*iv))
+                out = run(lambda: A + B)
+                if out[0] != "ok":
+                    chk.report(f"hier:family:{fam}:add", f"interval + {fam}{params} fails: {out[2]}", replay)
+                elif not (all(close(x, r + iv[0], 256) for x, r in zip(out[1], qref)) and all(close(x, r + iv[1], 256) for x, r in zip(out[2], qref))):
+                    chk.report(f"hier:family:{fam}:add", f"interval {list(iv)} + {fam}{params} ({order}) is not that distribution shifted by the interval", replay)
+
     # ---- C: every pairing of operand kinds, both orders, bare operators: same p-box as converting every operand first ----
     n_mix = 2 if chk.tier == "quick" else 16
     for _ in range(n_mix):
